@@ -34,8 +34,17 @@ fn local_n(l: Local) -> u8 {
     match l { Local::Healthy => 0, Local::SyncDisabled => 1, Local::ReplicaClosed => 2, Local::ActorStopped => 3, Local::Decline => 4, Local::StopDuring => 5, Local::Vanish => 6 }
 }
 
-async fn side(ns: &NamespaceSecret, author: &iroh_docs::Author, keys: &[&[u8]], failure: Local) -> anyhow::Result<SyncHandle> {
-    let sync = SyncHandle::spawn(Store::memory(), None, "verif-net".into());
+async fn side(ns: &NamespaceSecret, author: &iroh_docs::Author, keys: &[&[u8]], failure: Local, gate: Option<std::sync::Arc<tokio::sync::Semaphore>>) -> anyhow::Result<SyncHandle> {
+    // with a gate: the content-status callback (asked for every entry the actor sends) waits for a permit,
+    // which holds the actor inside a request for as long as the test wants
+    let cb: Option<iroh_docs::ContentStatusCallback> = gate.map(|g| {
+        let f: iroh_docs::ContentStatusCallback = std::sync::Arc::new(move |_hash| {
+            let g = g.clone();
+            Box::pin(async move { if let Ok(p) = g.acquire().await { p.forget(); } iroh_docs::ContentStatus::Missing })
+        });
+        f
+    });
+    let sync = SyncHandle::spawn(Store::memory(), cb, "verif-net".into());
     sync.import_namespace(ns.clone().into()).await?;
     sync.import_author(author.clone()).await?;
     sync.open(ns.id(), OpenOpts::default().sync()).await?;
@@ -59,8 +68,13 @@ pub async fn net_case(rng: &mut Rng, stats: &mut Stats) -> anyhow::Result<(Strin
     let fb = *rng.pick(&[Local::Healthy, Local::Healthy, Local::Healthy, Local::SyncDisabled, Local::ReplicaClosed, Local::ActorStopped, Local::Decline, Local::StopDuring, Local::StopDuring]);
     let keys_a: Vec<&[u8]> = [&b"a"[..], b"b", b"c"][..rng.below(4) as usize].to_vec();
     let keys_b: Vec<&[u8]> = [&b"b"[..], b"d"][..rng.below(3) as usize].to_vec();
-    let alice = side(&w.ns, &w.authors[0], &keys_a, fa).await?;
-    let bob = side(&w.ns, &w.authors[0], &keys_b, fb).await?;
+    let alice = side(&w.ns, &w.authors[0], &keys_a, fa, None).await?;
+    // an acceptor that is shut down during the session holds at least one entry and has the gated callback
+    let gate = if fb == Local::StopDuring { Some(std::sync::Arc::new(tokio::sync::Semaphore::new(0))) } else { None };
+    let keys_b: Vec<&[u8]> = if fb == Local::StopDuring && keys_b.is_empty() { vec![&b"d"[..]] } else { keys_b };
+    let bob = side(&w.ns, &w.authors[0], &keys_b, fb, gate.clone()).await?;
+    // what holds the acceptor's actor: a reconciliation message of the initiator's whole (different) set
+    let hold_msg = if fb == Local::StopDuring && !matches!(fa, Local::ActorStopped | Local::ReplicaClosed | Local::SyncDisabled) { alice.sync_initial_message(w.ns_id()).await.ok() } else { None };
     let alice_ep = Endpoint::bind(presets::Minimal).await?;
     let bob_ep = Endpoint::builder(presets::Minimal).alpns(vec![iroh_docs::ALPN.to_vec()]).bind().await?;
     let bob_addr = bob_ep.addr();
@@ -74,6 +88,8 @@ pub async fn net_case(rng: &mut Rng, stats: &mut Stats) -> anyhow::Result<(Strin
     let accept_task = tokio::spawn({
         let bob_ep = bob_ep.clone();
         let bob = bob.clone();
+        let gate = gate.clone();
+        let hold_msg = hold_msg.clone();
         let allowed = allowed.clone();
         let allowed_tx = allowed_tx.clone();
         async move {
@@ -84,11 +100,26 @@ pub async fn net_case(rng: &mut Rng, stats: &mut Stats) -> anyhow::Result<(Strin
                 // other requests keep the actor busy, the shutdown request is sent, and the session starts:
                 // its requests queue up behind the shutdown
                 let (b1, b2, b3) = (bob.clone(), bob.clone(), bob.clone());
-                let busy = async move { for _ in 0..8 { let _ = b1.get_state(id_b).await; } };
-                let stop = async move { tokio::task::yield_now().await; let _ = b2.shutdown().await; };
+                let gate = gate.clone().expect("gate");
+                // 1. the actor is held inside a request (it waits in the content-status callback)
+                let held = hold_msg.clone();
+                let busy = tokio::spawn(async move {
+                    match held {
+                        Some(m) => { let _ = b1.sync_process_message(id_b, m, [9u8; 32], Default::default()).await; }
+                        None => { for _ in 0..8 { let _ = b1.get_state(id_b).await; } }
+                    }
+                });
+                tokio::time::sleep(Duration::from_millis(40)).await;
+                // 2. the shutdown request is queued, 3. the session starts: its first request queues up behind it
+                let stop = tokio::spawn(async move { let _ = b2.shutdown().await; });
+                tokio::time::sleep(Duration::from_millis(20)).await;
                 let na = note_allowed.clone();
-                let sess = handle_connection(b3, conn, move |_ns, _peer| { na(); std::future::ready(AcceptOutcome::Allow) }, None);
-                let (_, _, r) = tokio::join!(busy, stop, sess);
+                let sess = tokio::spawn(handle_connection(b3, conn, move |_ns, _peer| { na(); std::future::ready(AcceptOutcome::Allow) }, None));
+                tokio::time::sleep(Duration::from_millis(60)).await;
+                // 4. the actor is let go
+                gate.add_permits(100_000);
+                let r = sess.await.ok()?;
+                let _ = busy.await; let _ = stop.await;
                 return Some(r);
             }
             Some(handle_connection(bob, conn, move |_ns, _peer| { if !decline { note_allowed(); } std::future::ready(if decline { AcceptOutcome::Reject(AbortReason::AlreadySyncing) } else { AcceptOutcome::Allow }) }, None).await)
